@@ -458,6 +458,21 @@ func C09(run *core.Run) {
 		for i, s := range smallInputs[l.mt] {
 			pool = append(pool, corpusFile{fmt.Sprintf("small#%d", i), []byte(s)})
 		}
+		if l.name == "css" {
+			// quote-kind twins: every pooled sheet that uses only double quotes, rewritten with apostrophes (rewrites that
+			// rebuild a string have to keep the delimiter they found; the test tables spell nearly everything with `"`)
+			for _, f := range append([]corpusFile{}, pool...) {
+				// the declaration lists of the inline test table, as the body of a rule
+				if bytes.IndexByte(f.Data, '{') < 0 && bytes.IndexByte(f.Data, '}') < 0 && bytes.IndexByte(f.Data, ':') > 0 && f.Data[0] != '@' {
+					pool = append(pool, corpusFile{"rule(" + f.Name + ")", append(append([]byte("a{"), f.Data...), '}')})
+				}
+			}
+			for _, f := range append([]corpusFile{}, pool...) {
+				if bytes.IndexByte(f.Data, '"') >= 0 && bytes.IndexByte(f.Data, '\'') < 0 && bytes.IndexByte(f.Data, '\\') < 0 {
+					pool = append(pool, corpusFile{"apostrophes(" + f.Name + ")", bytes.ReplaceAll(f.Data, []byte{'"'}, []byte{'\''})})
+				}
+			}
+		}
 		big := repoCorpus(l.mt, 4<<20)
 		// generated inputs
 		ng := run.N(150, 4000)
